@@ -79,6 +79,30 @@ static inline lz4_spec_seq_t lz4_spec_parse_seq(const uint8_t *b, size_t n, size
   return r;
 }
 
+/* Whole-block validity as the format document defines it; *out_len = size of the decoded data.
+ * (Loops are bounded by n; used with complete unwinding on small n.) */
+static inline int lz4_spec_block_valid(const uint8_t *b, size_t n, size_t *out_len) {
+  size_t pos = 0, out = 0, last_match_start = 0;
+  int have_match = 0;
+  if (n == 0) return 0; /* even the empty input is encoded as one token byte */
+  for (;;) {
+    lz4_spec_seq_t s = lz4_spec_parse_seq(b, n, pos);
+    if (!s.ok) return 0;
+    out = out + s.lit_len;
+    if (s.last) {
+      if (have_match && s.lit_len < LZ4_SPEC_LASTLITERALS) return 0;      /* last 5 bytes are literals */
+      if (have_match && last_match_start + LZ4_SPEC_MFLIMIT > out) return 0; /* last match starts >= 12 before end */
+      *out_len = out;
+      return 1;
+    }
+    if (s.offset > out) return 0; /* a match can only refer to data already decoded */
+    last_match_start = out;
+    out = out + s.match_len;
+    have_match = 1;
+    pos = s.next; /* pos == n here means the block stopped after a match: no last literals => !ok next round */
+  }
+}
+
 /* encoded size of a length field extension: number of extra bytes for value v in a nibble */
 static inline size_t lz4_spec_ext_bytes(size_t v) { return v < 15u ? 0u : (v - 15u) / 255u + 1u; }
 
